@@ -215,6 +215,41 @@ def stage(ck, full=False):
             ck.planted("%s/planted" % qn, fc.hyps, sp.Ge(harness.term(rp[0].result[0]), 1))
 
 
+def native_history(ck):
+    """the real Taus object on the shipped tables: kinematic identities event by event, and the shower-energy fraction read from the
+    configuration at every call (a configuration edited between two calls of one object is honoured)"""
+    from contracts import C05
+
+    fails, n = [], 0
+    rng = np.random.default_rng(ck.seed)
+    t = C05.fresh_taus("3")
+    m = 40
+    beta = np.radians(rng.uniform(1.0, 35.0, m))
+    loge = rng.uniform(7.0, 10.5, m)
+    import copy
+
+    t.config = copy.deepcopy(t.config)  # the edited configuration is this object's own
+    for frac in (t.config.simulation.tau_shower.etau_frac, 0.3, 1.0, 0.001):
+        t.config.simulation.tau_shower.etau_frac = frac
+        np.random.seed(ck.seed + 3)
+        with np.errstate(all="ignore"):
+            tb, tl, te, se, pe = t(beta.copy(), loge.copy())
+        n += m
+        tb, tl, te, se = (np.asarray(x, float) for x in (tb, tl, te, se))
+        g = te / M_TAU
+        bad = None
+        if not np.allclose(se, frac * te / 1e8, rtol=1e-12, atol=0):
+            bad = ("shower energy == configured fraction x tau energy / 1e8", {"configured fraction": frac, "observed fraction": float(np.median(se * 1e8 / te))})
+        elif not np.allclose(tl, g, rtol=1e-12):
+            bad = ("Lorentz factor == E/m_tau", {"observed": float(tl[0]), "expected": float(g[0])})
+        elif not np.allclose(1.0 - tb, 1.0 - np.sqrt(1.0 - 1.0 / g**2), rtol=1e-6, atol=1e-16):
+            bad = ("1 - speed == 1 - sqrt(1 - 1/gamma^2) (relative, low-energy taus included)", {"observed 1-beta": float((1 - tb)[int(np.argmin(te))]), "expected": float((1.0 - np.sqrt(1.0 - 1.0 / g**2))[int(np.argmin(te))]), "E_tau": float(te.min())})
+        if bad:
+            fails.append({"obligation": "bounded.history", "clause": bad[0], "input": {"etau_frac set before this call": frac, "calls on this object so far": n // m, "table_version": "3"}, "observed": bad[1]})
+            break
+    return {"evaluations": n, "failures": fails}
+
+
 def run(ck):
     ck.assume("Taus.tau_exit_prob / Taus.tau_energy are replaced by their contracts (C05 / C04): arbitrary per-event values with E_tau >= 1 TeV (data obligation of C18: smallest reachable energy 1.78 TeV)",
               "the internal generator's draw is a ghost per-event input u; uniform(0,1) is half-open so u in [0,1) there, the statement's interval (0,1] is used for explicit u",
@@ -223,6 +258,8 @@ def run(ck):
     ck.add_file("nuspacesim/simulation/taus/taus.py")
     ck.add_file("nuspacesim/simulation/eas_optical/eas.py")
     stage(ck, full=True)
+    ck.bounded_run("real Taus object: identities per event, configuration edited between calls", lambda: native_history(ck),
+                   design="one Taus object (tables v3), 4 calls of 40 events with etau_frac = default, 0.3, 1.0, 0.001 set between the calls")
     # the tau energy that feeds the kinematics: Taus.tau_energy under its own contract (shared with C04): energy at the
     # event's own angle (clamped only below the table), arguments untouched (the same beta array goes on to altDec)
     from contracts import C04
